@@ -8,7 +8,8 @@
 
    Semaphores: 0 _sem, 1 _rlock, 2 _wlock, 3 _unfinished_tasks, 4..7 JoinableQueue._cond
    (lock, sleeping, woken, wait); per process p: 8+2p = lock of _notempty, 9+2p = its
-   notification semaphore.  Registers: r0 = `timeout is not None`, r1 = `block`, r2 = the
+   notification semaphore.  `if self._thread is None: self._start_thread()` = QThreadJ / QStartThread
+   (Queue._start_thread itself is checked against an expected shape by the translator).  Registers: r0 = `timeout is not None`, r1 = `block`, r2 = the
    message of a put, r7 scratch. *)
 From Coq Require Import ZArith List Bool.
 From BV Require Import Model.SemProg Model.QueueProg.
@@ -33,13 +34,14 @@ Definition p_q_put : list qinstr :=
     QAcq (SP 0) FT FF 3            (*  3 *);
     QJmp 5                         (*  4 *);
     QJmp 6                         (*  5 *);
-    QStart                         (*  6 *);
-    QBufAppend 2                   (*  7 *);
-    QWJz 11                        (*  8 *);
-    QWDec                          (*  9 *);
-    QRel (SP 1)                    (* 10 *);
-    QRel (SP 0)                    (* 11 *);
-    QRet RNone                     (* 12 *) ].
+    QThreadJ 8                     (*  6 *);
+    QStartThread                   (*  7 *);
+    QBufAppend 2                   (*  8 *);
+    QWJz 12                        (*  9 *);
+    QWDec                          (* 10 *);
+    QRel (SP 1)                    (* 11 *);
+    QRel (SP 0)                    (* 12 *);
+    QRet RNone                     (* 13 *) ].
 
 Definition p_q_get : list qinstr :=
   [ QJz 1 7                        (*  0 *);
@@ -98,15 +100,16 @@ Definition p_jq_put : list qinstr :=
     QJmp 5                         (*  4 *);
     QJmp 6                         (*  5 *);
     QAcq (SG 4) FT FF 7            (*  6 *);
-    QStart                         (*  7 *);
-    QBufAppend 2                   (*  8 *);
-    QRel (SG 3)                    (*  9 *);
-    QWJz 13                        (* 10 *);
-    QWDec                          (* 11 *);
-    QRel (SP 1)                    (* 12 *);
-    QRel (SG 4)                    (* 13 *);
-    QRel (SP 0)                    (* 14 *);
-    QRet RNone                     (* 15 *) ].
+    QThreadJ 9                     (*  7 *);
+    QStartThread                   (*  8 *);
+    QBufAppend 2                   (*  9 *);
+    QRel (SG 3)                    (* 10 *);
+    QWJz 14                        (* 11 *);
+    QWDec                          (* 12 *);
+    QRel (SP 1)                    (* 13 *);
+    QRel (SG 4)                    (* 14 *);
+    QRel (SP 0)                    (* 15 *);
+    QRet RNone                     (* 16 *) ].
 
 Definition p_jq_task_done : list qinstr :=
   [ QAcq (SG 4) FT FF 7            (*  0 *);
@@ -199,5 +202,8 @@ Fixpoint proc_sems (n : nat) : list sem :=
 
 Definition qworld (maxsize : Z) (nprocs : nat) : list sem := queue_sems maxsize ++ proc_sems nprocs.
 
-Definition qinit (maxsize : Z) (scripts : list (list qcall)) : qsys :=
-  qinit_sys code FEED (qworld maxsize (length scripts)) scripts.
+(* own = the process of each pair (main thread 2q, feeder slot 2q+1); [] = one main thread per process *)
+Definition qinit_own (maxsize : Z) (own : list nat) (scripts : list (list qcall)) : qsys :=
+  qinit_sys code FEED (qworld maxsize (length scripts)) own scripts.
+
+Definition qinit (maxsize : Z) (scripts : list (list qcall)) : qsys := qinit_own maxsize [] scripts.
